@@ -1,4 +1,4 @@
 (* C14: extraction of the exact Gaussian-rational twin of the evaluation model *)
 Require Import ExtrOcamlBasic ExtrOcamlNativeString.
 Require Import MPSV.Eval.EvalModel.
-Extraction "../ocaml/eval.ml" eval_mono_q eval_cheb_q eval_sec_q sparse_q cheb_coded_q horner_q qc_of_q qc_eqb qc_is0 cheb_q.
+Extraction "../ocaml/eval.ml" eval_mono_q eval_cheb_q eval_sec_q sparse_q cheb_coded_q horner_q qc_of_q qc_eqb qc_is0 cheb_q sec_est_q cheb_est_q.
